@@ -537,6 +537,88 @@ func c06Follow(c *evid.Ctx, seed int64, appends int) {
 	c.Count("follow_reads_that_caught_the_entry_right_after_a_miss", tipHits.Load())
 }
 
+// c06Reopened: after a Close/Open the sealed segments are read through readers that Open
+// created from the files (their on-disk index), not through the writer that sealed them;
+// many goroutines read different entries of the same sealed segments at once while the
+// writer goes on appending. Every read must return the intact entry.
+func c06Reopened(c *evid.Ctx, seed int64, rounds int) {
+	disk := simfs.New(simfs.Strict)
+	w, err := drv.OpenSim(disk, drv.Cfg{SegSize: 1024})
+	if err != nil {
+		c.Inconclusive("cannot open WAL: %v", err)
+		return
+	}
+	rng := rand.New(rand.NewSource(seed))
+	want := map[uint64]*raft.Log{}
+	var mu sync.Mutex
+	var last atomic.Uint64
+	add := func(w *wal.WAL, n int) bool {
+		var logs []*raft.Log
+		for i := 0; i < n; i++ {
+			idx := last.Load() + 1 + uint64(i)
+			l := gen.Entry(rng, idx, "ro", 40+rng.Intn(120))
+			logs = append(logs, l)
+			mu.Lock()
+			want[idx] = l
+			mu.Unlock()
+		}
+		if err := w.StoreLogs(logs); err != nil {
+			c.Violation("C06:writer-error", err.Error(), map[string]any{"reopened_seed": seed})
+			return false
+		}
+		last.Add(uint64(n))
+		return true
+	}
+	for i := 0; i < 20; i++ {
+		if !add(w, 3) {
+			drv.CloseWAL(w)
+			return
+		}
+	}
+	hooks.WaitRotation(w, drv.Watchdog)
+	drv.CloseWAL(w)
+	w, err = drv.OpenSim(disk, drv.Cfg{SegSize: 1024})
+	if err != nil {
+		c.Violation("C06:writer-error", "reopen: "+err.Error(), map[string]any{"reopened_seed": seed})
+		return
+	}
+	defer drv.CloseWAL(w)
+	sealedMax := last.Load() - 3
+	var wg sync.WaitGroup
+	var reads atomic.Int64
+	for r := 0; r < 8; r++ {
+		wg.Add(1)
+		go func(r int) {
+			defer wg.Done()
+			rr := rand.New(rand.NewSource(seed*31 + int64(r)))
+			for i := 0; i < rounds; i++ {
+				idx := 1 + uint64(rr.Intn(int(sealedMax)))
+				op := c06Read(w, r, "get", idx)
+				reads.Add(1)
+				mu.Lock()
+				e := want[idx]
+				mu.Unlock()
+				if op.Err != "" || op.Log == nil {
+					c.Violation("C06:unexpected-error:get:reopened", fmt.Sprintf("GetLog(%d) of an entry in a sealed segment after a reopen, read concurrently: err=%q found=%v", idx, op.Err, op.Log != nil), map[string]any{"reopened_seed": seed, "index": idx})
+					return
+				}
+				if d := model.LogDiff(op.Log, e); d != "" {
+					c.Violation("C06:stale-or-future-value:get:reopened", fmt.Sprintf("GetLog(%d) of an entry in a sealed segment after a reopen, read concurrently, is not the entry that was stored: %s", idx, d), map[string]any{"reopened_seed": seed, "index": idx})
+					return
+				}
+			}
+		}(r)
+	}
+	for i := 0; i < 10; i++ {
+		if !add(w, 2) {
+			break
+		}
+	}
+	wg.Wait()
+	c.Count("reads_of_sealed_segments_after_reopen", reads.Load())
+	c.Count("reads", reads.Load())
+}
+
 // c06Large: entries larger than the pooled 64 KiB read buffer (the reader's second code
 // path: release the pooled buffer, allocate, read again) read by many goroutines at once
 // while the writer appends more of them; every read must return the intact entry.
@@ -610,7 +692,7 @@ func c06Large(c *evid.Ctx, seed int64, rounds int) {
 }
 
 func runC06(c *evid.Ctx) {
-	c.Rule("histories recorded at the API boundary with tickets from one logical clock: one writer (appends with rotation, head truncation, tail truncation followed by re-append of different content at the same indexes, delete-all followed by a base-index reset) against 2-8 readers on hot indexes (first, last, last+1, just truncated, just re-appended) under seeded hook perturbation, plus directed scripts that park a reader at each window (after loadState before acquire, after acquire, before the tail writer's commitIdx load, before its offsets load, between the bound check and the offsets load, before ReadAt) while each kind of writer op runs to completion; every read is checked against the versions that could have been current during its interval (and independently by porcupine), errors other than not-found are legal only for an index an overlapping truncation removed, entries may only be returned after their batch's fsync completed; plus a tail-follower phase (readers polling GetLog(last+1) while single-entry batches are appended) and a large-entry phase (entries above the pooled 64 KiB read buffer read by 8 goroutines at once); all under the race detector; non-trivial = distinct (read kind, overlapping writer op kind, parked-at point) triples with >= 2 candidate versions",
+	c.Rule("histories recorded at the API boundary with tickets from one logical clock: one writer (appends with rotation, head truncation, tail truncation followed by re-append of different content at the same indexes, delete-all followed by a base-index reset) against 2-8 readers on hot indexes (first, last, last+1, just truncated, just re-appended) under seeded hook perturbation, plus directed scripts that park a reader at each window (after loadState before acquire, after acquire, before the tail writer's commitIdx load, before its offsets load, between the bound check and the offsets load, before ReadAt) while each kind of writer op runs to completion; every read is checked against the versions that could have been current during its interval (and independently by porcupine), errors other than not-found are legal only for an index an overlapping truncation removed, entries may only be returned after their batch's fsync completed; plus a tail-follower phase (readers polling GetLog(last+1) while single-entry batches are appended) a large-entry phase (entries above the pooled 64 KiB read buffer read by 8 goroutines at once) and a reopened phase (sealed segments read through the readers Open creates, by 8 goroutines at once); all under the race detector; non-trivial = distinct (read kind, overlapping writer op kind, parked-at point) triples with >= 2 candidate versions",
 		"reads", "overlap_triples")
 	c.Assume("tickets order events only when one completes before the other starts; candidate version sets are supersets of the truth")
 	points := []string{"acquireState.loaded", "GetLog.acquired", "offsetForFrame.checked", "readFrame.beforeRead", "FirstIndex.checked", "LastIndex.checked", "writer.loadCommitIdx", "writer.loadOffsets"}
@@ -671,6 +753,13 @@ func runC06(c *evid.Ctx) {
 	wg.Wait()
 	remove()
 	c.Extra("hook_hits_stress", ctl.Hits())
+	if quick(c) {
+		c06Reopened(c, c.Seed, 400)
+	} else {
+		for k := int64(0); k < 10; k++ {
+			c06Reopened(c, c.Seed*7+k, 3000)
+		}
+	}
 	if quick(c) {
 		c06Large(c, c.Seed, 150)
 	} else {
